@@ -58,11 +58,15 @@ def main():
             meta["checks"][p] = {"cmd": "DAGRT_REPO=<patched tree> ./check %s --tier %s" % (p, tier), "rc": r.returncode,
                                  "violations": len(viol), "signatures": sigs[:6], "wall_s": round(time.time() - t0, 1)}
         meta["detected"] = any(c["violations"] > 0 for c in meta["checks"].values())
-        meta["what_it_needs"] = open(os.path.join(src, "meta.txt")).read() if os.path.exists(os.path.join(src, "meta.txt")) else ""
         out = os.path.join(VERIF, "seeded", name)
         os.makedirs(out, exist_ok=True)
-        shutil.copy(patch, os.path.join(out, "patch.diff"))
-        shutil.copy(os.path.join(src, "demo.py"), os.path.join(out, "demo.py"))
+        if os.path.exists(os.path.join(src, "meta.txt")):
+            meta["what_it_needs"] = open(os.path.join(src, "meta.txt")).read()
+        elif os.path.exists(os.path.join(out, "meta.json")):
+            meta["what_it_needs"] = json.load(open(os.path.join(out, "meta.json"))).get("what_it_needs", "")
+        if os.path.realpath(src) != os.path.realpath(out):
+            shutil.copy(patch, os.path.join(out, "patch.diff"))
+            shutil.copy(os.path.join(src, "demo.py"), os.path.join(out, "demo.py"))
         with open(os.path.join(out, "meta.json"), "w") as f:
             json.dump(meta, f, indent=1)
         print(json.dumps({k: v for k, v in meta.items() if k != "what_it_needs"}, indent=1))
